@@ -86,6 +86,22 @@ instance (m : List (Nat × Status)) (ff : Bool) (mt : Dep → Bool) (ds out : Li
 /-- no store call fails -/
 def faultFree (s : Store) : Bool := s.faults.all (! ·)
 
+/-! ### recording an outcome (`watchExecution` → `storeProposalsStatus`) -/
+
+/-- the status `watchExecution` records: the transaction was accepted by the node ↦ executed, rejected ↦ failed -/
+def outcomeStatus (accepted : Bool) : Status := if accepted then .executed else .failed
+
+/-- POutcome: only the proposals of this execution are touched, and only with the outcome's status; without store
+    faults every one of them carries it afterwards -/
+def POutcome (m : List (Nat × Status)) (faultFree : Bool) (ns : List Nat) (v : Status) (m' : List (Nat × Status))
+    (keys : List Nat) : Prop :=
+  (∀ k ∈ keys, lookup m' k = lookup m k ∨ (k ∈ ns ∧ lookup m' k = v)) ∧
+  (faultFree = true → ∀ k ∈ ns, lookup m' k = v)
+
+instance (m : List (Nat × Status)) (ff : Bool) (ns : List Nat) (v : Status) (m' : List (Nat × Status)) (keys : List Nat) :
+    Decidable (POutcome m ff ns v m' keys) := by
+  unfold POutcome; infer_instance
+
 /-! ### histories: BTC executor + retries over one status store -/
 
 structure HState where
